@@ -156,10 +156,67 @@ func pathsOf(v ssa.Value) []valPath {
 			}
 			return
 		}
+		// a struct-typed local cell that only receives one whole value (a by-value parameter or a
+		// range element copied into a variable): its fields are the fields of that value
+		if a, ok := v.(*ssa.Alloc); ok && len(suffix) > 0 && !seen[a] {
+			if w := wholeStoreOf(a); w != nil {
+				seen[a] = true
+				rec(w, suffix, depth+1)
+				return
+			}
+		}
 		out = append(out, valPath{root: v, fields: append([]string(nil), suffix...)})
 	}
 	rec(v, nil, 0)
 	return out
+}
+
+// wholeStoreOf returns the value stored into the struct cell a when a is written exactly once, as
+// a whole (never field by field, never through an escaping pointer).
+func wholeStoreOf(a *ssa.Alloc) ssa.Value {
+	var whole ssa.Value
+	n := 0
+	var fieldWritten func(v ssa.Value) bool
+	fieldWritten = func(v ssa.Value) bool {
+		for _, r := range refs(v) {
+			switch x := r.(type) {
+			case *ssa.FieldAddr:
+				if fieldWritten(x) {
+					return true
+				}
+			case *ssa.IndexAddr:
+				if fieldWritten(x) {
+					return true
+				}
+			case *ssa.Store:
+				if x.Addr == v && v != ssa.Value(a) {
+					return true
+				}
+				if x.Val == v {
+					return true // the address escapes
+				}
+			case *ssa.UnOp, *ssa.DebugRef:
+			default:
+				if v != ssa.Value(a) {
+					return true // address of a field handed to something else
+				}
+				if _, isCall := r.(ssa.CallInstruction); isCall {
+					return true
+				}
+			}
+		}
+		return false
+	}
+	for _, r := range refs(a) {
+		if st, ok := r.(*ssa.Store); ok && st.Addr == ssa.Value(a) {
+			n++
+			whole = st.Val
+		}
+	}
+	if n != 1 || fieldWritten(a) {
+		return nil
+	}
+	return whole
 }
 
 // allPathsEnd reports whether v has at least one expansion and every expansion ends with suffix.
@@ -305,6 +362,9 @@ func flagKillers(fn *ssa.Function, pkg, typ, field string) []ssa.Instruction {
 				}
 				for _, a := range args {
 					if _, isPtr := a.Type().Underlying().(*types.Pointer); isPtr && isNamedType(a.Type(), pkg, typ) {
+						if g := staticCallee(c); g != nil && !calleeMayStoreField(g, pkg, typ, field, 0, map[*ssa.Function]bool{}) {
+							continue // the callee is visible and never writes the flag
+						}
 						out = append(out, in)
 						break
 					}
@@ -1013,4 +1073,427 @@ func cachedFuncPaths(g *ssa.Function) ([]*Path, *keyer, bool) {
 	ps, k, ok := funcPaths(g, 2000)
 	funcPathsCache[g] = pathsEntry{ps, k, ok}
 	return ps, k, ok
+}
+
+// calleeMayStoreField reports whether the function g, or anything it calls, may store into field
+// `field` of a struct of the named type: a visible store, or a pointer to such a struct handed to
+// code that is not visible (dynamic call, function outside the repository).
+func calleeMayStoreField(g *ssa.Function, pkg, typ, field string, depth int, seen map[*ssa.Function]bool) bool {
+	if seen[g] {
+		return false
+	}
+	seen[g] = true
+	root := g
+	for root.Parent() != nil {
+		root = root.Parent()
+	}
+	inRepo := root.Pkg != nil && (root.Pkg.Pkg.Path() == repoMod || strings.HasPrefix(root.Pkg.Pkg.Path(), repoMod+"/"))
+	if len(g.Blocks) == 0 || !inRepo || depth > 6 {
+		return true
+	}
+	if len(storesToFieldOf(g, pkg, typ, field)) > 0 {
+		return true
+	}
+	for _, ci := range callsIn(g) {
+		c := ci.Common()
+		passes := false
+		args := append([]ssa.Value{}, c.Args...)
+		if !c.IsInvoke() {
+			args = append(args, c.Value)
+		}
+		for _, a := range args {
+			if _, isPtr := a.Type().Underlying().(*types.Pointer); isPtr && isNamedType(a.Type(), pkg, typ) {
+				passes = true
+			}
+			if _, isClosure := a.(*ssa.MakeClosure); isClosure {
+				passes = true
+			}
+		}
+		h := staticCallee(c)
+		if h == nil {
+			if passes {
+				return true
+			}
+			continue
+		}
+		if passes && calleeMayStoreField(h, pkg, typ, field, depth+1, seen) {
+			return true
+		}
+	}
+	return false
+}
+
+// rowAlternatives: when v is a field of the element of a local table (a composite literal of
+// structs that is ranged over), it returns the values the literal stores into that field, one per
+// row. ok=false when v is not of that shape or a row does not set the field.
+func rowAlternatives(v ssa.Value) ([]ssa.Value, bool) {
+	ps := pathsOf(stripConv(v))
+	if len(ps) != 1 || len(ps[0].fields) != 1 {
+		return nil, false
+	}
+	ia, ok := ps[0].root.(*ssa.IndexAddr)
+	if !ok {
+		return nil, false
+	}
+	var arr *ssa.Alloc
+	switch x := ia.X.(type) {
+	case *ssa.Slice:
+		arr, _ = x.X.(*ssa.Alloc)
+	case *ssa.Alloc:
+		arr = x
+	}
+	if arr == nil {
+		return nil, false
+	}
+	at, isArr := arr.Type().Underlying().(*types.Pointer).Elem().Underlying().(*types.Array)
+	if !isArr {
+		return nil, false
+	}
+	rows := map[int64]ssa.Value{}
+	for _, r := range refs(arr) {
+		ria, isIA := r.(*ssa.IndexAddr)
+		if !isIA {
+			if _, isSl := r.(*ssa.Slice); isSl {
+				continue
+			}
+			return nil, false // the array is used in another way
+		}
+		k, isConst := constInt(ria.Index)
+		if !isConst {
+			if ria == ia {
+				continue
+			}
+			return nil, false
+		}
+		for _, r2 := range refs(ria) {
+			fa, isFA := r2.(*ssa.FieldAddr)
+			if !isFA {
+				return nil, false
+			}
+			if fieldName(fa) != ps[0].fields[0] {
+				continue
+			}
+			for _, r3 := range refs(fa) {
+				if st, isSt := r3.(*ssa.Store); isSt && st.Addr == ssa.Value(fa) {
+					rows[k] = st.Val
+				}
+			}
+		}
+	}
+	if int64(len(rows)) != at.Len() || len(rows) == 0 {
+		return nil, false
+	}
+	var out []ssa.Value
+	for k := int64(0); k < at.Len(); k++ {
+		out = append(out, rows[k])
+	}
+	return out, true
+}
+
+// ---------------------------------------------------------------------------------------------
+// provenance of a struct field across function boundaries
+
+// fieldSources returns the values that field path `fields` of the struct value v can hold,
+// following v through by-value parameters (arguments at every call site), results of repository
+// functions (their returned values), phis, and local struct variables / composite literals (the
+// values stored into the field). ok=false when some source cannot be followed.
+func fieldSources(prog *Prog, v ssa.Value, fields []string, depth int) (out []ssa.Value, ok bool) {
+	if depth > 8 {
+		return nil, false
+	}
+	if len(fields) == 0 {
+		return []ssa.Value{v}, true
+	}
+	v = stripConv(v)
+	// look through an access path first
+	if ps := pathsOf(v); len(ps) == 1 && (ps[0].root != v || len(ps[0].fields) > 0) && ps[0].root != nil {
+		if ps[0].root != v {
+			return fieldSources(prog, ps[0].root, append(append([]string(nil), ps[0].fields...), fields...), depth+1)
+		}
+	}
+	var structCell func(a *ssa.Alloc) ([]ssa.Value, bool)
+	structCell = func(a *ssa.Alloc) ([]ssa.Value, bool) {
+		var vals []ssa.Value
+		for _, r := range refs(a) {
+			fa, isFA := r.(*ssa.FieldAddr)
+			if !isFA || fieldName(fa) != fields[0] {
+				continue
+			}
+			for _, r2 := range refs(fa) {
+				if st, isSt := r2.(*ssa.Store); isSt && st.Addr == ssa.Value(fa) {
+					vals = append(vals, st.Val)
+				}
+			}
+		}
+		if w := wholeStoreOf(a); w != nil && len(vals) == 0 {
+			return fieldSources(prog, w, fields, depth+1)
+		}
+		if len(vals) == 0 {
+			return nil, false
+		}
+		var res []ssa.Value
+		for _, x := range vals {
+			sub, okS := fieldSources(prog, x, fields[1:], depth+1)
+			if !okS {
+				return nil, false
+			}
+			res = append(res, sub...)
+		}
+		return res, true
+	}
+	switch x := v.(type) {
+	case *ssa.Alloc:
+		return structCell(x)
+	case *ssa.UnOp:
+		if a, isA := x.X.(*ssa.Alloc); isA && x.Op == token.MUL {
+			return structCell(a)
+		}
+	case *ssa.Phi:
+		var res []ssa.Value
+		for _, e := range x.Edges {
+			sub, okS := fieldSources(prog, e, fields, depth+1)
+			if !okS {
+				return nil, false
+			}
+			res = append(res, sub...)
+		}
+		return res, len(res) > 0
+	case *ssa.Parameter, *ssa.Call, *ssa.Extract, *ssa.FreeVar:
+		outs := prog.stepOut(v)
+		if len(outs) == 0 {
+			return nil, false
+		}
+		var res []ssa.Value
+		for _, o := range outs {
+			sub, okS := fieldSources(prog, o, fields, depth+1)
+			if !okS {
+				return nil, false
+			}
+			res = append(res, sub...)
+		}
+		return res, true
+	}
+	return nil, false
+}
+
+// valueSources resolves a value that is a field of a struct travelling between functions to the
+// values originally stored into that field; other values resolve to themselves.
+func valueSources(prog *Prog, v ssa.Value) []ssa.Value {
+	sv := stripConv(v)
+	ps := pathsOf(sv)
+	if len(ps) == 1 && len(ps[0].fields) > 0 {
+		switch ps[0].root.(type) {
+		case *ssa.Parameter, *ssa.Call, *ssa.Extract, *ssa.Alloc:
+			if isStructLike(ps[0].root) {
+				if srcs, ok := fieldSources(prog, ps[0].root, ps[0].fields, 0); ok && len(srcs) > 0 {
+					return srcs
+				}
+			}
+		}
+	}
+	return []ssa.Value{sv}
+}
+
+func isStructLike(v ssa.Value) bool {
+	t := v.Type()
+	if p, ok := t.Underlying().(*types.Pointer); ok {
+		t = p.Elem()
+	}
+	_, ok := t.Underlying().(*types.Struct)
+	return ok
+}
+
+// argSources follows a parameter to the arguments it receives at every static call site
+// (repeatedly); other values resolve to themselves.
+func argSources(prog *Prog, v ssa.Value, depth int) []ssa.Value {
+	sv := stripConv(v)
+	if p, ok := sv.(*ssa.Parameter); ok && depth < 6 {
+		outs := prog.stepOut(p)
+		if len(outs) > 0 {
+			var res []ssa.Value
+			for _, o := range outs {
+				res = append(res, argSources(prog, o, depth+1)...)
+			}
+			return res
+		}
+	}
+	return []ssa.Value{sv}
+}
+
+// expandAlternatives is the disjunctive counterpart of expandFacts: a fact about the boolean
+// result of a repository helper is replaced by each compatible path of the helper in turn, so the
+// result is a list of alternatives (one of which holds), each a conjunction of facts. stop names
+// callees that are to stay atomic. The expansion is bounded; beyond the bound facts stay atomic.
+func expandAlternatives(prog *Prog, facts []Fact, env *envT, depth int, stop func(*ssa.Function) bool) [][]xfact {
+	alts := [][]xfact{{}}
+	for _, f := range facts {
+		for i := range alts {
+			alts[i] = append(alts[i], xfact{f, env})
+		}
+		if depth >= 3 || len(alts) > 256 {
+			continue
+		}
+		var call *ssa.Call
+		idx := 0
+		switch x := f.V.(type) {
+		case *ssa.Call:
+			call = x
+		case *ssa.Extract:
+			call, _ = x.Tuple.(*ssa.Call)
+			idx = x.Index
+		}
+		if call == nil {
+			continue
+		}
+		g := calleeOfE(&call.Call, env)
+		if g == nil || !prog.IsRuleSite(g) || len(g.Blocks) == 0 || idx >= g.Signature.Results().Len() || (stop != nil && stop(g)) {
+			continue
+		}
+		if bt, ok := g.Signature.Results().At(idx).Type().Underlying().(*types.Basic); !ok || bt.Kind() != types.Bool {
+			continue
+		}
+		gpaths, gk, ok := cachedFuncPaths(g)
+		if !ok {
+			continue
+		}
+		genv := bindArgs(g, call.Call.Args, env)
+		var sub [][]xfact
+		for _, q := range gpaths {
+			ret := returnOf(q.Blocks[len(q.Blocks)-1])
+			if ret == nil || idx >= len(ret.Results) {
+				continue
+			}
+			res := q.Resolve(ret.Results[idx])
+			qfacts := factList(q.Facts)
+			if b, isC := constBool(res); isC {
+				if b != f.Pol {
+					continue
+				}
+			} else {
+				qfacts = append(qfacts, gk.normCond(res, f.Pol)...)
+			}
+			sub = append(sub, expandAlternatives(prog, qfacts, genv, depth+1, stop)...)
+		}
+		if len(sub) == 0 || len(sub)*len(alts) > 1024 {
+			continue
+		}
+		var next [][]xfact
+		for _, a := range alts {
+			for _, sa := range sub {
+				next = append(next, append(append([]xfact(nil), a...), sa...))
+			}
+		}
+		alts = next
+	}
+	return alts
+}
+
+// ---------------------------------------------------------------------------------------------
+// classification of the promotion decision's facts, through helpers and state structs
+
+// classifyDecisionA reads the atoms of the promotion rule off one alternative of a decision path.
+// Unlike c05Classify it accepts facts found in helpers of the decision (environment of the fact)
+// and flags that travel in a struct (a field of a by-value struct built by another helper): each
+// flag is traced back to the reader call that produced it, and the reader's arguments to the
+// decision's parameters.
+func classifyDecisionA(prog *Prog, s *decisionSite, alt []xfact, notes *[]string) promoAtoms {
+	var a promoAtoms
+	dsP, actP, utdP := s.roles["daemonset"], s.roles["active"], s.roles["upToDate"]
+	// role matchers: the value, followed through parameters to the decision's own parameters
+	isRole := func(p *ssa.Parameter) func(ssa.Value) bool {
+		var rec func(v ssa.Value, depth int) bool
+		rec = func(v ssa.Value, depth int) bool {
+			v = stripConv(v)
+			if p == nil || depth > 6 {
+				return false
+			}
+			if v == ssa.Value(p) {
+				return true
+			}
+			q, isP := v.(*ssa.Parameter)
+			if !isP {
+				return false
+			}
+			outs := prog.stepOut(q)
+			if len(outs) == 0 {
+				return false
+			}
+			for _, o := range outs {
+				if !rec(o, depth+1) {
+					return false
+				}
+			}
+			return true
+		}
+		return func(v ssa.Value) bool { return rec(v, 0) }
+	}
+	ds, utd := isRole(dsP), isRole(utdP)
+	canarySpec := func(v ssa.Value) bool {
+		ps := pathsOf(stripConv(v))
+		return len(ps) == 1 && valPath{fields: ps[0].fields}.endsWith("Spec", "Strategy", "Canary") && ds(ps[0].root)
+	}
+	for _, xf := range alt {
+		v := xf.V
+		if xf.env == nil {
+			switch {
+			case isEqCompare(v, isParam(actP), isParam(utdP)):
+				a.eqActive = bptr(xf.Pol)
+				continue
+			case isNilCompareOf(v, isParam(actP)):
+				a.activeNil = bptr(xf.Pol)
+				continue
+			case isNilCompareOf(v, canarySpec):
+				a.noCanary = bptr(xf.Pol)
+				continue
+			}
+		}
+		for _, src := range valueSources(prog, v) {
+			var call *ssa.Call
+			idx := -1
+			switch x := src.(type) {
+			case *ssa.Call:
+				call = x
+			case *ssa.Extract:
+				call, _ = x.Tuple.(*ssa.Call)
+				idx = x.Index
+			}
+			if call == nil {
+				continue
+			}
+			args := call.Call.Args
+			switch calleeName(&call.Call) {
+			case pkgEDS + ".IsCanaryDeploymentValid":
+				if idx == -1 && annotationsOf(ds)(args[0]) && nameOf(utd)(args[1]) {
+					a.valid = bptr(xf.Pol)
+				} else {
+					*notes = append(*notes, "IsCanaryDeploymentValid is not called with (daemonset annotations, up-to-date replica set name)")
+				}
+			case pkgEDS + ".IsCanaryDeploymentEnded":
+				if idx == 0 && canarySpec(args[0]) && utd(args[1]) {
+					a.ended = bptr(xf.Pol)
+				} else if idx == 0 {
+					*notes = append(*notes, "IsCanaryDeploymentEnded is not called with (spec canary, up-to-date replica set, now)")
+				}
+			case pkgEDS + ".IsCanaryDeploymentPaused":
+				if idx == 0 && annotationsOf(ds)(args[0]) && utd(args[1]) {
+					a.paused = bptr(xf.Pol)
+				} else if idx == 0 {
+					*notes = append(*notes, "IsCanaryDeploymentPaused is not called with (daemonset annotations, up-to-date replica set)")
+				}
+			case pkgEDS + ".IsCanaryDeploymentFailed":
+				if idx == -1 && utd(args[0]) {
+					a.failed = bptr(xf.Pol)
+				} else {
+					*notes = append(*notes, "IsCanaryDeploymentFailed is not called with the up-to-date replica set")
+				}
+			}
+		}
+	}
+	return a
+}
+
+// decisionAlternatives expands the facts of a decision path through the unexported helpers of the
+// decision (exported predicates are the atoms of the rule).
+func decisionAlternatives(prog *Prog, p *Path) [][]xfact {
+	return expandAlternatives(prog, factList(p.Facts), nil, 0, func(g *ssa.Function) bool { return token.IsExported(g.Name()) })
 }
